@@ -255,6 +255,21 @@ def run_job(plan, j, tier):
     if rc != 0:
         R.reason = 'goto-cc link failed: ' + (err + out)[-1500:]
         return R
+    if j.loops and j.kind == 'contract':
+        # loop contracts are only applied (and their obligations only expected) if the current code of the target or of a
+        # function it calls still has a loop; a loop-free rewrite is decided directly against the function contract
+        byc = {f['cname']: f for f in j.unit.sym['functions']}
+        seen, todo, nl = set(), [j.fn['cname']], 0
+        while todo:
+            c = todo.pop()
+            if c in seen or c not in byc:
+                continue
+            seen.add(c)
+            nl += byc[c].get('loops', 0)
+            todo += byc[c].get('calls', [])
+        if nl == 0:
+            j.loops = False
+            j.assumed.append('loop contracts not applied: the current code reached from %s has no loop' % j.target)
     need_dfcc = (j.kind == 'contract' and j.dfcc) or j.replace_c or j.loops
     if need_dfcc:
         gb2 = os.path.join(jd, 'b.gb')
